@@ -207,7 +207,24 @@ func netunitInbound(r *RunCtx) {
 	for i := 0; i <= n; i++ {
 		if i == bad {
 			malformedAt = len(sums)
-			switch r.Intn(4) {
+			switch r.Intn(5) {
+			case 4: // a well-formed message whose IsRq flag contradicts the body that is present
+				g := genMessage(r)
+				if g == nil {
+					continue
+				}
+				var buf bytes.Buffer
+				_ = g.msg.ToNet(&buf)
+				b := buf.Bytes()
+				// DAG-CBOR map, keys sorted by length: a3 64 "IsRq" <bool> ...
+				if len(b) > 6 && b[0] == 0xa3 && string(b[2:6]) == "IsRq" && (b[6] == 0xf4 || b[6] == 0xf5) {
+					b[6] ^= 0x01
+					stream = append(stream, b...)
+					items = append(items, "flag-contradicts-body-"+g.kind)
+					r.Probe("flag-contradicts-body")
+				} else {
+					r.HarnessErr = fmt.Sprintf("unexpected message layout %x", b[:8])
+				}
 			case 0: // random junk
 				k := 1 + r.Intn(12)
 				junk := make([]byte, k)
